@@ -227,10 +227,11 @@ def c_set_new_initial_state(k):
     class C:
         def __init__(self, name, nq=None, nu=None):
             self.name = name
+            # object arrays: an implementation that writes the new (symbolic) state INTO these arrays must be able to do so
             if nq is not None:
-                self.nq, self.q0 = nq, np.arange(nq, dtype=float) + 10 * len(name)
+                self.nq, self.q0 = nq, (np.arange(nq, dtype=float) + 10 * len(name)).astype(object)
             if nu is not None:
-                self.nu, self.u0 = nu, np.arange(nu, dtype=float) - 5.0
+                self.nu, self.u0 = nu, (np.arange(nu, dtype=float) - 5.0).astype(object)
 
     with npshim.active(True), k.spec():
         sysm = csys.System()
@@ -242,10 +243,16 @@ def c_set_new_initial_state(k):
             sysm.assemble()
             q_new, u_new = S.symarray("q_new", sysm.nq), S.symarray("u_new", sysm.nu)
             layout = {c.name: (getattr(c, "my_qDOF", None), getattr(c, "my_uDOF", None)) for c in parts}
+            old = {c.name: [(a, a.copy()) for a in (getattr(c, "q0", None), getattr(c, "u0", None)) if a is not None] for c in parts}
             sysm.set_new_initial_state(q_new, u_new, t0=1.5)
         finally:
             csys.consistent_initial_conditions = saved
         k.prove("the re-assembled system has the same sizes", sysm.nq == 8 and sysm.nu == 4)
+        # frame: the arrays that held the previous initial state may be shared (default arguments, other systems, stored
+        # solutions): the new state is bound to the contributions, not written into those arrays
+        for c in parts:
+            for arr, before in old[c.name]:
+                k.prove_eq(f"{c.name}: the array that held the previous initial state is not written to", arr, before)
         k.prove_eq("assembled initial configuration = the state passed in", sysm.q0, q_new)
         k.prove_eq("assembled initial velocity = the state passed in", sysm.u0, u_new)
         k.prove("initial time = the time passed in", float(sysm.t0) == 1.5)
